@@ -35,6 +35,20 @@ def judged_superset(m, o):
     return o[1].endswith(m[1])
 
 
+def well_formed(rule):
+    """[^]body$ with no ^ or $ inside body: the rules whose meaning the repo documents ('if the pattern starts
+    with ^ an exact match is required; the rest of the pattern is the suffix of the domain name') and which
+    theorems C06_rule_anchored / C06_rule_suffix characterise."""
+    if not rule.endswith(b"$"):
+        return False
+    body = rule[1:-1] if rule.startswith(b"^") and len(rule) >= 2 else rule[:-1]
+    return b"^" not in body and b"$" not in body
+
+
+def documented_nonmember(rule, host):
+    return well_formed(rule) and not member(new_matcher(rule), host)
+
+
 def words(n):
     if n == 0:
         return [b""]
@@ -93,10 +107,15 @@ def prop(line, impl, model):
         f = fields(impl)
         if not {"sup", "ma", "mb"} <= set(f):
             return "unreadable driver answer: " + impl[:100]
+        hosts = SMALL if op == "sup" else [unhx(a[4])]
+        if len(f["ma"]) != len(hosts) or len(f["mb"]) != len(hosts):
+            return "unreadable driver answer: " + impl[:100]
+        for rule, bits_ in ((unhx(a[2]), f["ma"]), (unhx(a[3]), f["mb"])):
+            if well_formed(rule):
+                for h, x in zip(hosts, bits_):
+                    if x == "1" and documented_nonmember(rule, h):
+                        return "pattern %r accepts hostname %r, contrary to its documented meaning" % (rule, h)
         if f["sup"] == "1":
-            hosts = SMALL if op == "sup" else [unhx(a[4])]
-            if len(f["ma"]) != len(hosts) or len(f["mb"]) != len(hosts):
-                return "unreadable driver answer: " + impl[:100]
             for h, x, y in zip(hosts, f["ma"], f["mb"]):
                 if y == "1" and x != "1":
                     return ("pattern %r is judged a superset of %r but rejects hostname %r which the latter accepts"
@@ -105,6 +124,8 @@ def prop(line, impl, model):
         allowed, presumed, kind, pat = unhx(a[2]), unhx(a[3]), a[4], unhx(a[5])
         eff = pat if kind == "s" else presumed
         sup = impl_judged_superset(a[5] if kind == "s" else a[3], a[2])
+        if well_formed(eff) and well_formed(allowed):
+            sup = sup and judged_superset(new_matcher(eff), new_matcher(allowed))
         if impl == "accept":
             if not sup:
                 return ("broker registered a %s poll whose pattern %r is not a superset of the allowed pattern %r"
@@ -126,7 +147,7 @@ def prop(line, impl, model):
             if parsed is None:
                 return "session proceeds although the relay URL %r does not parse" % raw
             if raw != b"":
-                if not impl_member(a[2], a[7]):
+                if not impl_member(a[2], a[7]) or documented_nonmember(pattern, parsed[1]):
                     return "session proceeds with relay URL %r whose hostname %r fails the proxy's pattern %r" % (raw, parsed[1], pattern)
                 if not allow and parsed[0] != b"wss":
                     return "session proceeds with relay URL %r of scheme %r while non-TLS relays are not allowed" % (raw, parsed[0])
@@ -144,7 +165,7 @@ def prop(line, impl, model):
                         continue
                     if raw == b"":
                         return "broker sent no relay URL but the proxy dialled %r instead of its configured relay" % h
-                    if not impl_member(a[2], hx(h)):
+                    if not impl_member(a[2], hx(h)) or documented_nonmember(pattern, h):
                         return "proxy dialled relay host %r (URL %r) which fails its pattern %r" % (h, raw, pattern)
                     if not allow and sch != "https":
                         return "proxy dialled %r without TLS while non-TLS relays are not allowed" % raw
@@ -155,7 +176,7 @@ def key_of(line, impl, model):
     a = line.split(" ")
     op = a[1]
     if op in ("sup", "nm"):
-        return "superset-unsound"
+        return "superset-unsound" if fields(impl).get("sup") == "1" else "member-semantics"
     if op == "poll":
         return "broker-" + (impl if impl in ("accept", "reject") else "irregular") + "-" + {"s": "pattern", "l": "legacy", "n": "legacy"}[a[4]]
     if a[5] == "E":
